@@ -328,9 +328,8 @@ def check(ctx):
                    "disagreeing: " + ", ".join(dis), reported=True)
         hints += dis
         broken = name_list(facts.get("errorPathBroken"))
-        ctx.oblige("C02_error_effect hypothesis: every error path of the decode loop (as the source reads now) leaves the VM where the verifier assumes",
+        ctx.oblige("error paths of the hand model leave the VM where the verifier assumes (the closed boolean C02_error_effect is proved from)",
                    facts.get("errorPathsRepaired") == "true", "error paths that do not: " + ", ".join(broken), reported=True)
-        ctx.stats["error_paths_broken"] = broken
         hints += broken
     if not quick and proofs_ok:
         common.leanchecker(ctx, PROPS_MODULE)
